@@ -65,6 +65,17 @@ def make_policy(prm, W, clock=None, tick_ns=10 ** 9, key_of=None):
                                 get_weight=lambda fid: W[int(fid[4:]) - 1],
                                 capacity=None if prm["cap"] >= INF else prm["cap"],
                                 per_flow_capacity=None if prm["pfc"] >= INF else prm["pfc"])
+    elif kind == "codel":
+        from happysimulator.components.queue_policies import CoDelQueue
+        return CoDelQueue(target_delay=1.0 * (tick_ns // 10 ** 9), interval=2.0 * (tick_ns // 10 ** 9),
+                          capacity=None if prm["cap"] >= INF else prm["cap"], clock_func=clock)
+    elif kind == "red":
+        from happysimulator.components.queue_policies import REDQueue
+        return REDQueue(min_threshold=1, max_threshold=3, max_probability=0.5,
+                        capacity=None if prm["cap"] >= INF else max(3, prm["cap"]), weight=0.5)
+    elif kind == "alifo":
+        from happysimulator.components.queue_policies import AdaptiveLIFO
+        return AdaptiveLIFO(congestion_threshold=2, capacity=None if prm["cap"] >= INF else prm["cap"])
     else:
         raise ValueError(kind)
     if prm["thr"] < INF:
@@ -77,6 +88,8 @@ def policy_drops(pol) -> int:
     inner = pol.inner if isinstance(pol, BalkingQueue) else pol
     if isinstance(inner, DeadlineQueue):
         return inner.stats.expired
+    if type(inner).__name__ == "CoDelQueue":
+        return inner.stats.dropped
     return 0
 
 
@@ -413,7 +426,8 @@ EMPTY_SC = mk_sc()
 def _trace(prm, rcap, W, P, F, lim0, log, *, idle, order, cnt, sink, fin, wk, allof=1, sc=None, wt=None):
     return {"prm": prm, "rcap": rcap, "W": W, "P": P, "F": F, "wt": wt or [1] * len(P),
             "disc": 1 if wk in ("shifted", "reneging") else 0, "lim0": lim0, "idle": idle, "order": order,
-            "cnt": cnt, "sink": sink, "allof": allof, "dbg": 0, "hassc": 1 if sc else 0, "sc": sc or EMPTY_SC,
+            "cnt": cnt, "sink": sink, "allof": allof, "dbg": 0,
+            "nomodel": 1 if prm["kind"] in ("codel", "red", "alifo") else 0, "hassc": 1 if sc else 0, "sc": sc or EMPTY_SC,
             "fin": fin, "log": log, "wk": wk}
 
 
@@ -467,8 +481,8 @@ def run_policy_ops(prm, W, ops, seed=0):
     inner = pol.inner if isinstance(pol, BalkingQueue) else pol
     pub = inner.stats.enqueued if hasattr(inner, "stats") and hasattr(inner.stats, "enqueued") else enq
     # the reference is given the weights the policy documents (a weight below 1 counts as 1)
-    tr = _trace(prm, rep_cap(pol), [max(1, w) for w in W], P, F, 0, log, idle=0, order=1, cnt=0, sink=0,
-                fin=[pub, 0], wk="policy")
+    tr = _trace(prm, rep_cap(pol), [max(1, w) for w in W], P, F, 0, log, idle=0,
+                order=0 if prm["kind"] in ("codel", "red", "alifo") else 1, cnt=0, sink=0, fin=[pub, 0], wk="policy")
     return tr, results
 
 
